@@ -71,6 +71,8 @@ def check(run):
     hostcorr.explore(run, binp, 3000 if run.tier == "quick" else 60000)
     # parse_host itself (both types) against Model/HostParse.lean (Props/C10: parse_host_is_host_parser)
     hostcorr.explore_parse_host(run, binp, 6000 if run.tier == "quick" else 120000)
+    # what the parser / host theorems assume of the IDNA parameter (IdnaAt), asked of the real ada::idna::to_ascii
+    hostcorr.explore_idna_assumption(run, binp, 8000 if run.tier == "quick" else 150000)
     n = 24000 if run.tier == "quick" else 200000
     cases = host_cases(run.rng, n)
     res = urlcorr.explore(run, binp, cases)
